@@ -234,14 +234,16 @@ fn leaf() -> impl Strategy<Value = E> {
         1 => proptest::sample::select(vec!["", "a", "ab", "1"]).prop_map(|s| E::Str(s.to_string())),
         1 => any::<bool>().prop_map(E::Bool),
         1 => Just(E::Null),
-        6 => proptest::sample::select(vec!["fa", "fb", "fc", "fm"]).prop_map(E::id),
+        8 => proptest::sample::select(vec!["fa", "fa", "fb", "fb", "fc", "fm"]).prop_map(E::id),
     ]
 }
 
 fn expr() -> impl Strategy<Value = E> {
     leaf().prop_recursive(4, 24, 3, |inner| {
         prop_oneof![
-            10 => (proptest::sample::select(Op::ARITH.to_vec()), inner.clone(), inner.clone()).prop_map(|(op, l, r)| E::bin(op, l, r)),
+            8 => (proptest::sample::select(Op::ARITH.to_vec()), inner.clone(), inner.clone()).prop_map(|(op, l, r)| E::bin(op, l, r)),
+            // the identity-rewrite shapes: x*0, 0*x, x*1, 1*x, x+0, 0+x, x-0, x/1 (and their non-identity mirror images)
+            4 => (proptest::sample::select(vec![Op::Mul, Op::Add, Op::Sub, Op::Div]), inner.clone(), 0i64..2, any::<bool>()).prop_map(|(op, x, k, lit_right)| if lit_right { E::bin(op, x, E::Int(k)) } else { E::bin(op, E::Int(k), x) }),
             2 => (proptest::sample::select(Op::CMP.to_vec()), inner.clone(), inner.clone()).prop_map(|(op, l, r)| E::bin(op, l, r)),
             1 => (proptest::sample::select(vec![Op::And, Op::Or, Op::In, Op::NotIn]), inner.clone(), inner.clone()).prop_map(|(op, l, r)| E::bin(op, l, r)),
             3 => inner.clone().prop_map(|x| E::Neg(Box::new(x))),
@@ -262,8 +264,15 @@ fn field_value() -> impl Strategy<Value = V> {
     ]
 }
 
+fn mostly(kind: u8) -> impl Strategy<Value = V> {
+    prop_oneof![
+        3 => if kind == 0 { vh_gen::any_int().prop_map(V::Int).boxed() } else { vh_gen::any_float().prop_map(V::f).boxed() },
+        2 => field_value(),
+    ]
+}
+
 fn strat() -> impl Strategy<Value = Case> {
-    (expr(), field_value(), field_value(), field_value()).prop_map(|(expr, a, b, c)| Case {
+    (expr(), mostly(0), mostly(1), field_value()).prop_map(|(expr, a, b, c)| Case {
         expr,
         fields: vec![("fa".into(), a), ("fb".into(), b), ("fc".into(), c)],
         raw: false,
